@@ -580,6 +580,12 @@ def _c(kind, sink, ops, **kw):
 S, T, SE, RS, TK = ["start"], ["stop"], ["settle"], ["resolve"], ["tick"]
 
 CORPUS = [
+    # a run() that returns a Future is seen to be finished only some loop turns after it left its loop: a start() landing in between
+    # must not be lost (found by a thorough sweep on the unchanged tree, repaired in /repo)
+    {"kind": "periodic-tornado", "sink": "future", "step": False,
+     "ops": [["resolve"], ["start"], ["stop"], ["tick"], ["tick"], ["tick"], ["start"], ["adv", 2.0], ["start"], ["adv", 2.0], ["resolve"], ["settle"]]},
+    {"kind": "periodic-tornado", "sink": "sync", "step": False,
+     "ops": [["start"], ["adv", 0.5], ["stop"], ["adv", 1.0], ["tick"], ["start"], ["adv", 2.0], ["stop"], ["tick"], ["tick"], ["start"], ["adv", 2.0]]},
     # stop(); start() during the back-pressured emit of the first item (the probe-confirmed defect)
     _c("iterable", "future", [S, SE, T, S, SE, RS, SE, RS, SE, RS, SE, RS, SE, RS, SE], items=[0, 1, 2, 3], shared=False),
     # ... during the sleep of from_periodic / filenames, during the emit of from_textfile
